@@ -34,6 +34,8 @@ Only these lexical normalisations are applied to copied text (each counted, see 
   N8 `RECV.method(..).map(Ctor)?` with `Ctor` a tuple-struct / enum-variant constructor path (last segment capitalised) becomes
      `Ctor(RECV.method(..)?)`: for a Result, mapping a total, effect-free constructor over the Ok value and then applying `?`
      is the same as applying `?` first and the constructor afterwards (Verus has no constructors as function values)
+  N9 `debug_assert_eq!(A, B)` / `assert_eq!(A, B)` (two arguments) become `debug_assert!(A == B)` / `assert!(A == B)`: the same
+     check without the formatted panic message (Verus has no specification for core::panicking::assert_failed)
 No expression is rewritten otherwise. Ghost text (loop invariants, proof blocks) named in the unit template is spliced
 into bodies at loop ordinals / after exact statement texts, always on the same output line so that line numbers of the
 body still correspond to the source (annotation in place; ghost code only, erased at compile time).
@@ -392,7 +394,7 @@ class Normaliser:
         self.counts = {'N1_visibility': 0, 'N2_attrs_docs_dropped': 0, 'N3_ret_named_contract_spliced': 0,
                        'N4_cfg_statistics_or_allow_dropped': 0, 'N4b_cfg_attribute_dropped_code_kept': 0,
                        'N5_ref_pattern_desugared': 0,
-                       'N6_impl_iterator_return_type': 0, 'N7_tail_loop_break_value': 0, 'N8_map_constructor_then_try': 0, 'G_ghost_splices': 0}
+                       'N6_impl_iterator_return_type': 0, 'N7_tail_loop_break_value': 0, 'N8_map_constructor_then_try': 0, 'N9_assert_eq_as_assert': 0, 'G_ghost_splices': 0}
 
     def vis(self, s):
         def rep(m):
@@ -809,6 +811,36 @@ def expand(template_path, repo):
             body = norm.body(body)
             if not external:
                 body = norm.refpat(body)
+                # N9
+                while True:
+                    sc9 = Scan(body)
+                    m9 = None
+                    for mm in re.finditer(r'\b(debug_assert_eq|assert_eq)!\(', body):
+                        if sc9.is_code(mm.start()):
+                            m9 = mm
+                            break
+                    if not m9:
+                        break
+                    po9 = m9.end() - 1
+                    pc9 = sc9.match[po9]
+                    args, cur, i9 = [], po9 + 1, po9 + 1
+                    while i9 < pc9:
+                        if sc9.code[i9]:
+                            ch9 = body[i9]
+                            if ch9 in '([{' and i9 in sc9.match:
+                                i9 = sc9.match[i9] + 1
+                                continue
+                            if ch9 == ',':
+                                args.append(body[cur:i9])
+                                cur = i9 + 1
+                        i9 += 1
+                    args.append(body[cur:pc9])
+                    args = [a for a in args if a.strip()]
+                    if len(args) != 2:
+                        raise AnchorLost(f'{rel}: fn {qn}: N9: assert_eq with a message is not handled')
+                    mac = 'debug_assert' if m9.group(1) == 'debug_assert_eq' else 'assert'
+                    body = body[:m9.start()] + f'{mac}!(({args[0].strip()}) == ({args[1].strip()}))' + body[pc9 + 1:]
+                    norm.counts['N9_assert_eq_as_assert'] += 1
                 # N8
                 n8pat = re.compile(r'(\b[a-z_]\w*(?:\s*\.\s*[a-z_]\w*\([^()]*\))+)\s*\.\s*map\(((?:[A-Za-z_]\w*::)*[A-Z]\w*)\)\?')
                 sc8 = Scan(body)
